@@ -277,9 +277,13 @@ pub fn exec(w: &mut World, op: &Value) -> bool {
             let g = s(op, "g").to_string();
             let cont = op.get("cont").and_then(|v| v.as_bool()).unwrap_or(false);
             if let Some(f) = op.get("fault") {
-                let at = f.get("at").and_then(|v| v.as_u64()).unwrap_or(0) as u32;
                 let pos = f.get("pos").and_then(|v| v.as_u64()).unwrap_or(0) as u32;
-                crate::heap::arm_fault(at, pos);
+                if let Some(at) = f.get("at").and_then(|v| v.as_u64()) {
+                    crate::heap::arm_fault(at as u32, pos);
+                }
+                if let Some(dat) = f.get("dat").and_then(|v| v.as_u64()) {
+                    crate::heap::arm_dfault(dat as u32);
+                }
             }
             w.call(&kind, b, &g, cont, g == "real", None);
             w.observe();
@@ -303,6 +307,9 @@ pub fn exec(w: &mut World, op: &Value) -> bool {
             true
         }
         "drop_arena" => {
+            if let Some(dat) = op.get("dat").and_then(|v| v.as_u64()) {
+                crate::heap::arm_dfault(dat as u32);
+            }
             w.drop_arena();
             true
         }
